@@ -14,12 +14,23 @@ def renderRun : Except Err (List JV) → String
   | .ok docs => "ok " ++ String.intercalate ";" (docs.map JV.render)
   | .error e => "err " ++ toString e.line ++ " " ++ toString e.col ++ " " ++ e.kind.name
 
-def tablesOf (fe : String) : Option (Tables × Bool) :=
-  if fe = "oj" then some (ojTables, false)
-  else if fe = "gen" then some (genTables, true)
-  else if fe = "ref" then some (refTables, false)
+def tablesOf (fe : String) : Option Tables :=
+  if fe = "oj" then some ojTables
+  else if fe = "gen" then some genTables
+  else if fe = "ref" then some refTables
   else none
 
+/-- split the input into chunks of the given lengths; the rest is the last chunk -/
+def splitChunks : Bytes → List Nat → List Bytes
+  | bs, [] => if bs.isEmpty then [] else [bs]
+  | bs, n :: ns => if bs.isEmpty then [] else bs.take n :: splitChunks (bs.drop n) ns
+
+def parseChunks (s : String) : Option (List Nat) :=
+  if s = "-" then some []
+  else (s.splitOn ",").mapM (fun t => t.toNat?)
+
+/-- `run <tables> <single|multi> <opts> <chunk lengths> <hex input>`;
+opts is a string of flags: `r` reader entry point, `f` parser integer fast loop -/
 def handle : List String → String
   | ["spec", hx] =>
     match ofHex hx with
@@ -29,13 +40,15 @@ def handle : List String → String
       | .none => "none"
       | .one v => "one " ++ v.render
       | .bad => "bad"
-  | ["run", fe, md, hx] =>
-    match ofHex hx, tablesOf fe with
-    | some bs, some (T, g) =>
-      if md = "single" then renderRun (run T { onlyOne := true, genNode := g } bs)
-      else if md = "multi" then renderRun (run T { onlyOne := false, genNode := g } bs)
-      else "bad-op"
-    | _, _ => "bad-op"
+  | ["run", fe, md, opts, chunks, hx] =>
+    match ofHex hx, tablesOf fe, parseChunks chunks with
+    | some bs, some T, some ns =>
+      if md ≠ "single" && md ≠ "multi" then "bad-op"
+      else if opts.toList.any (fun c => c ≠ 'r' && c ≠ 'f' && c ≠ '-') then "bad-op"
+      else
+        let cfg : Cfg := { onlyOne := md = "single", reader := opts.contains 'r', fastInt := opts.contains 'f' }
+        renderRun (run T cfg (if ns.isEmpty then [bs] else splitChunks bs ns))
+    | _, _, _ => "bad-op"
   | _ => "bad-op"
 
 end OjgVerif.Json
